@@ -58,7 +58,20 @@ class Source(Stream):
         if self.stopped:
             self.stopped = False
             self.started = True
-            self.loop.add_callback(self.run)
+            if not getattr(self, '_running', False):
+                self._running = True
+                self.loop.add_callback(self._run_once)
+
+    async def _run_once(self):
+        # at most one ``run`` at a time: a polling loop that is still suspended
+        # (sleeping, or waiting for downstream) simply carries on when the
+        # source is started again
+        try:
+            result = self.run()
+            if isawaitable(result):
+                await result
+        finally:
+            self._running = False
 
     async def run(self):
         """This coroutine will be invoked by start() and emit all data
